@@ -1035,6 +1035,43 @@ pub fn run_twice(words: &[&str]) -> String {
     format!("SAME N={} F={} multi={}", a.len(), fa.unwrap_or("-".into()), multi)
 }
 
+/// outcomes <cap> <ms> <objs> <bodies>: exhaustive DFS over the real runtime; prints the distinct outcomes
+/// (per-task operation results and termination), `|`-separated, and whether the enumeration was complete
+pub fn run_outcomes(words: &[&str]) -> String {
+    let [_, cap, ms, objs, bodies] = words else {
+        return "ERR bad case".to_string();
+    };
+    let Some(config) = parse_config(ms) else { return "ERR bad max_steps".to_string() };
+    let cap: usize = cap.parse().unwrap();
+    let prog = parse_prog(objs, bodies);
+    let mut outs: std::collections::BTreeSet<String> = std::collections::BTreeSet::new();
+    let (data, fail) = run_recorded(shuttle_schedulers::DfsScheduler::new(Some(cap), false), config, prog);
+    let n = data.len();
+    // a failing execution (deadlock/panic) ends the run: continue the enumeration from there is not possible with the
+    // plain DfsScheduler, so failing programs are reported as incomplete unless the failure is the last schedule
+    for (i, (log, _)) in data.iter().enumerate() {
+        let mut per_task: std::collections::BTreeMap<usize, Vec<String>> = std::collections::BTreeMap::new();
+        for ev in log.split(' ') {
+            if let Some(rest) = ev.strip_prefix('O') {
+                let head = rest.split('@').next().unwrap_or("");
+                let mut it = head.splitn(3, ':');
+                let t: usize = it.next().unwrap_or("0").parse().unwrap_or(0);
+                let tag = it.next().unwrap_or("");
+                let vals = it.next().unwrap_or("");
+                if tag == "9" || tag == "30" {
+                    continue;
+                }
+                per_task.entry(t).or_default().push(format!("{}:{}", tag, vals));
+            }
+        }
+        let term = if i + 1 == n { fail.clone().unwrap_or("ok".into()) } else { "ok".to_string() };
+        let s = per_task.iter().map(|(t, v)| format!("{}={}", t, v.join(","))).collect::<Vec<_>>().join(";");
+        outs.insert(format!("{}#{}", s, term));
+    }
+    let complete = fail.is_none() && n < cap;
+    format!("N={} complete={} {}", n, complete as u8, outs.into_iter().collect::<Vec<_>>().join("|"))
+}
+
 /// reseed <seed> <iters> <ms> <objs> <bodies>: every iteration of the random scheduler, re-run from the seed it
 /// reported with one iteration, must be reproduced exactly (data draws included)
 pub fn run_reseed(words: &[&str]) -> String {
@@ -1098,12 +1135,88 @@ pub fn run_nondet(words: &[&str]) -> String {
     }
 }
 
+/// One scripted run with a given failure-persistence mode; reports termination, the panic payload class and the
+/// recorded schedule in its printed string form.
+pub fn run_with_persistence(words: &[&str], persist: &str, dir: &str) -> String {
+    let [ms, script, rseed, objs, bodies] = words else {
+        return "ERR bad case".to_string();
+    };
+    let Some(mut config) = parse_config(ms) else { return "ERR bad max_steps".to_string() };
+    config.failure_persistence = match persist {
+        "none" => FailurePersistence::None,
+        "print" => FailurePersistence::Print,
+        _ => FailurePersistence::File(Some(std::path::PathBuf::from(dir))),
+    };
+    let script: Vec<Option<usize>> = crate::split_list(script, ',')
+        .iter()
+        .map(|w| if *w == "x" { None } else { Some(w.parse().unwrap()) })
+        .collect();
+    let prog = parse_prog(objs, bodies);
+    let sched = Scripted { script, pos: 0, rnd: rseed.parse().unwrap(), started: false };
+    LOG.with(|l| l.borrow_mut().clear());
+    let p2 = prog.clone();
+    let res = catch_unwind(AssertUnwindSafe(|| {
+        Runner::new(sched, config).run(move || {
+            let objs = Arc::new(make_objs(&p2.obj_specs));
+            run_body(p2.clone(), objs, 0);
+        })
+    }));
+    let recorded = CurrentSchedule::get_schedule();
+    let text = shuttle_engine::scheduler::serialization::serialize_schedule(&recorded).replace('\n', "|");
+    match res {
+        Ok(_) => format!("T=ok payload=- S={}", text),
+        Err(p) => {
+            let msg = if let Some(s) = p.downcast_ref::<String>() {
+                s.clone()
+            } else if let Some(s) = p.downcast_ref::<&str>() {
+                s.to_string()
+            } else {
+                "<non-string>".to_string()
+            };
+            let class = if msg == "vpanic" {
+                "vpanic"
+            } else if msg.starts_with("deadlock!") {
+                "deadlock"
+            } else if msg.starts_with("exceeded max_steps bound") {
+                "max_steps"
+            } else {
+                "other"
+            };
+            format!("T={} payload={} S={}", classify(Box::new(msg)), class, text)
+        }
+    }
+}
+
+/// replaytext <text> <ms> <objs> <bodies>: runs the program under ReplayScheduler::new_from_encoded(text)
+pub fn run_replaytext(words: &[&str]) -> String {
+    let [_, text, ms, objs, bodies] = words else {
+        return "ERR bad case".to_string();
+    };
+    let Some(config) = parse_config(ms) else { return "ERR bad max_steps".to_string() };
+    let prog = parse_prog(objs, bodies);
+    let text = text.replace('|', "\n");
+    let r = catch_unwind(AssertUnwindSafe(|| shuttle_schedulers::ReplayScheduler::new_from_encoded(&text)));
+    match r {
+        Ok(rs) => {
+            let (_, f) = run_recorded(rs, config, prog);
+            format!("T={}", f.unwrap_or("ok".into()))
+        }
+        Err(_) => "T=replay-constructor-panicked".to_string(),
+    }
+}
+
 pub fn run(words: &[&str]) -> String {
+    if words.first() == Some(&"replaytext") {
+        return run_replaytext(words);
+    }
     if words.first() == Some(&"progdfs") {
         return run_dfs(words);
     }
     if words.first() == Some(&"replay") {
         return run_replay(words);
+    }
+    if words.first() == Some(&"outcomes") {
+        return run_outcomes(words);
     }
     if words.first() == Some(&"reseed") {
         return run_reseed(words);
